@@ -5,6 +5,7 @@
 #include "verif.h"
 
 static unsigned g_alloc_calls, g_dealloc_calls, g_realloc_calls;
+static unsigned g_alloc_failures; /* times the stub returned null */
 static int g_live_blocks;
 static struct Allocator *g_expected_allocator; /* every call must use the allocator the document was given */
 static _Bool g_alloc_may_fail = 1;
@@ -30,7 +31,7 @@ static void ledger_del(void *p) { for (unsigned i = 0; i < 4; i++) if (g_blk_ptr
 void *Allocator__allocate(struct Allocator *self, size_t n) {
   CHECK(g_expected_allocator == 0 || self == g_expected_allocator, "allocate goes to the document's allocator");
   g_alloc_calls++;
-  if (g_alloc_may_fail && in_bool()) return 0;
+  if (g_alloc_may_fail && in_bool()) { g_alloc_failures++; return 0; }
   void *p = malloc(n);
   __CPROVER_assume(p != 0);
   ledger_add(p, n);
@@ -45,7 +46,7 @@ void *Allocator__reallocate(struct Allocator *self, void *p, size_t n) {
   CHECK(g_expected_allocator == 0 || self == g_expected_allocator, "reallocate goes to the document's allocator");
   g_realloc_calls++;
   size_t old = ledger_size(p, (size_t)-1);
-  if (g_alloc_may_fail && (p == 0 || n > old) && in_bool()) return 0; /* only a growing reallocate may fail */
+  if (g_alloc_may_fail && (p == 0 || n > old) && in_bool()) { g_alloc_failures++; return 0; } /* only a growing reallocate may fail */
   void *q = realloc(p, n);
   __CPROVER_assume(q != 0);
   if (p) ledger_del(p);
